@@ -202,6 +202,22 @@ class World:
         else:
             delattr(parent, segs[-1])
 
+    def op_copy_space(self, op):
+        """Space.copy into the model under a new name; an accepted copy is deleted again at once (the operation is offered
+        for its rejections: the definitions are the same before and after either way)."""
+        src = self.space(op["space"])
+        block = op.get("block")
+        if block:
+            # a model-level reference named like one of the cells to be copied (legal shadowing), for the time of the copy:
+            # that cells cannot be created in the new space, so the copy stops after the cells before it
+            setattr(self.m, block, 5)
+        try:
+            src.copy(self.m, op["name"])
+            delattr(self.m, op["name"])
+        finally:
+            if block:
+                delattr(self.m, block)
+
     def op_rename_space(self, op):
         self.space(op["space"]).rename(op["new"])
 
